@@ -201,7 +201,7 @@ def main():
                 thorough_cmd="bin/check %s --tier thorough" % pid, evidence_file="evidence/%s.json" % pid,
                 replay_cmd_template="bin/check %s --replay {path}" % pid, engine="symx",
                 level_claimed=dict(category="model_checking", text=c["text"], design_ref="DESIGN.md section 5, " + pid),
-                level_note=c["note"], technique=c.get("technique", TECH)))
+                level_note=c["note"] + CONCRETE.get(pid, ""), technique=c.get("technique", TECH)))
         else:
             m["not_applicable"].append(dict(property_id=pid, reason=NOT_APPLICABLE.get(pid, PENDING)))
     with open(os.path.join(HERE, "MANIFEST.json"), "w") as f:
@@ -210,6 +210,17 @@ def main():
 
 
 NOT_APPLICABLE = {}
+# a few items per check are concrete regression runs of the real routine (where exact-real symbolic arithmetic cannot see the
+# fault class); they supplement the solver verdicts and are labelled in the evidence
+CONCRETE = {
+    "C01": " Supplement (not solver verdicts): two concrete finite-difference items for the complex Hermitian dense EigenSolve adjoint.",
+    "C05": " Supplement (not solver verdicts): concrete `cgdeg-*` items (degenerate right-hand sides, the rhs array used as initial guess).",
+    "C06": " Supplement (not solver verdicts): twelve concrete `rounding-*` items (floating-point remainders of dependent block columns).",
+    "C10": " Supplement (not solver verdicts): six concrete `subsolv-kkt-concrete-*` items (optimality conditions of the point the real subsolv returns).",
+    "C16": " Supplement (not solver verdicts): six concrete `range-concrete-*` items (floating-point range of the aggregates).",
+    "C17": " Supplement (not solver verdicts): four concrete `oc-volume-concrete-*` items (volume to bisection tolerance with the full bisection).",
+    "C18": " Supplement (not solver verdicts): two concrete `nonfinite-concrete-*` items (reset of kept allocations holding inf / nan).",
+}
 
 if __name__ == "__main__":
     main()
